@@ -47,6 +47,7 @@ LEVEL["decided"] += ' (R05.11) the single-source tool tables of R01.12 (items ta
 LEVEL["decided"] += ' End-of-source detections are part of every compared trace (tool tables, islice, zip_longest, merge): an exhausted source is asked again exactly where the counterpart asks (found F12). (R05.13/R05.14/R05.15) groupby histories, tee histories and the merge table with the items taken from the source after every operation.'
 LEVEL["decided"] += " The tables also compare the interleaving of requests to the sources, calls of the user's callable and hand-outs of items (tool tables, islice, zip_longest, merge). One open known finding: batched ends without asking its exhausted source once more where itertools.batched does (F16)."
 LEVEL["technique"] += '; whole-tool tables and groupby / tee / merge histories by abstract evaluation over an object model (end-of-source detections included)'
+LEVEL["decided"] += ' (R05.16) the adapter around a synchronous source asks for one item per step, also for a collection that produces its items when asked (never a snapshot); (R05.17) a tee child that waited for the lock re-tests its buffer before it asks the source (R09.2, shared).'
 
 TOOLS = c01.PASS_THROUGH + c01.TRANSFORMING
 # look-behind windows are recognised structurally (the held item is yielded together with the newly
